@@ -4,6 +4,7 @@ import (
 	"bytes"
 	"context"
 	"encoding/json"
+	"errors"
 	"fmt"
 	"io"
 	"net/http"
@@ -227,7 +228,14 @@ func (a *Application) translationHandler(trans translator.RequestTranslator) htt
 		// Read maxBodySize+1 to detect oversized requests before JSON parsing
 		bodyBytes, err := io.ReadAll(io.LimitReader(r.Body, maxBodySize+1))
 		if err != nil {
-			a.writeTranslatorError(w, trans, pr, err, http.StatusBadRequest)
+			// the server-wide body limit (security chain) may cut the body before this route's own
+			// limit is reached: too large is too large, not a malformed request
+			status := http.StatusBadRequest
+			var tooLarge *http.MaxBytesError
+			if errors.As(err, &tooLarge) {
+				status = http.StatusRequestEntityTooLarge
+			}
+			a.writeTranslatorError(w, trans, pr, err, status)
 			a.recordTranslatorMetrics(trans, pr, constants.TranslatorModeTranslation, constants.FallbackReasonNone)
 			return
 		}
